@@ -33,11 +33,15 @@ from .common import INT_FILL, enc_float, enc_ints
 PE = ["exclude", "split", "ignore"]
 ENG = ["spatialpandas", "geopandas"]
 KIND = ["grid.to_geodataframe", "uxda.to_geodataframe", "grid.to_polycollection", "uxda.to_polycollection",
-        "grid.to_linecollection"]
-SPEC_KIND = [0, 0, 1, 1, 2]
-NPROJ = 4
-PROJ_NAME = ["None", "Robinson()", "Orthographic()", "Robinson(central_longitude=100)"]
-CENTRAL = [0.0, 0.0, 0.0, 100.0]
+        "grid.to_linecollection", "grid.antimeridian_face_indices"]
+GETTER = 5  # a READ of the lazy property Grid.antimeridian_face_indices, at some point of a history
+SPEC_KIND = [0, 0, 1, 1, 2, 3]
+# projections whose seam (central_longitude + 180) lies elsewhere than the antimeridian: lon_0 = 100, 180, -120, 90
+# (Robinson / Mollweide; PlateCarree(central_longitude) raises KeyError in uxarray's _correct_central_longitude here)
+NPROJ = 7
+PROJ_NAME = ["None", "Robinson()", "Orthographic()", "Robinson(central_longitude=100)",
+             "Mollweide(central_longitude=180)", "Robinson(central_longitude=-120)", "Mollweide(central_longitude=90)"]
+CENTRAL = [0.0, 0.0, 0.0, 100.0, 180.0, -120.0, 90.0]
 
 _proj_cache = {}
 
@@ -49,7 +53,10 @@ def proj_obj(p):
         return None
     if p not in _proj_cache:
         _proj_cache[p] = {1: lambda: ccrs.Robinson(), 2: lambda: ccrs.Orthographic(),
-                          3: lambda: ccrs.Robinson(central_longitude=100.0)}[p]()
+                          3: lambda: ccrs.Robinson(central_longitude=100.0),
+                          4: lambda: ccrs.Mollweide(central_longitude=180.0),
+                          5: lambda: ccrs.Robinson(central_longitude=-120.0),
+                          6: lambda: ccrs.Mollweide(central_longitude=90.0)}[p]()
     return _proj_cache[p]
 
 
@@ -515,6 +522,8 @@ def enc_op(t, op):
 
 
 def op_str(op):
+    if op["kind"] == GETTER:
+        return "read grid.antimeridian_face_indices"
     s = f"{KIND[op['kind']]}(periodic_elements='{PE[op['pe']]}', projection={PROJ_NAME[op['proj']]}"
     if op["kind"] in (0, 1):
         s += f", engine='{ENG[op['eng']]}'"
@@ -538,6 +547,8 @@ class World:
 
     def call(self, op):
         ux, g, t = self.ux, self.grid, self.t
+        if op["kind"] == GETTER:
+            return np.array(g.antimeridian_face_indices)
         kw = dict(periodic_elements=PE[op["pe"]], projection=proj_obj(op["proj"]), cache=op["cache"],
                   override=op["override"])
         k = op["kind"]
@@ -567,6 +578,10 @@ def run_history(ux, t: Truth, ops):
             obj = w.call(op)
         except Exception as e:  # noqa: BLE001 - every exception is an observation
             out.append(dict(err=True, exc=type(e).__name__, msg=str(e)[:160], rows=[], tag=0, data=None, verts=None))
+            continue
+        if op["kind"] == GETTER:
+            out.append(dict(err=False, exc=None, rows=sorted(int(i) for i in np.asarray(obj).ravel()), tag=0, data=None,
+                            notes=None, verts=None, rettype="ndarray"))
             continue
         try:
             parts, data = extract(obj, op["kind"], f"v{op['var']}")
@@ -615,7 +630,23 @@ def enc_obs(o):
     return " ".join([str(int(o["err"])), str(o["tag"]), enc_ints(o["rows"]), str(0 if d is None else 1), enc_ints(dd)])
 
 
+def lean_am(ctx, t):
+    """the Lean predicate on the grid's OWN shells (float32 longitudes, no projection): flags of the padded closed
+    shell and of the cyclic boundary segments (antimeridian_iff says they agree)"""
+    if getattr(t, "_lean_am", None) is None:
+        l32 = t.lon.astype(np.float32).astype(float)
+        toks = [str(t.w), str(t.n)] + [str(len(f)) + " " + " ".join(enc_float(l32[v]) for v in f) for f in t.faces]
+        ans = common.Tok(ctx.driver.ask("C15.am", " ".join(toks)))
+        t._lean_am = (ans.ints(), ans.ints())
+    return t._lean_am
+
+
 def lean_spec(ctx, t, op, o):
+    if op["kind"] == GETTER:
+        if o["err"]:
+            return ["raises"]
+        want = [i for i, b in enumerate(lean_am(ctx, t)[1]) if b]
+        return [] if o["rows"] == want else ["antimeridian_iff"]
     v = ctx.driver.ask("C15.spec", enc_case(t, op), enc_obs(o))
     if v.startswith("ok"):
         return []
@@ -631,7 +662,18 @@ import os as _os
 REPAIRS = [int(c) for c in _os.environ.get("VERIF_C15_REPAIRS", "110")]
 
 
-def lean_hist(ctx, t, ops):
+def lean_hist(ctx, t, ops_all):
+    """the Lean state machine on the conversions of the history; a getter read is no operation of the machine
+    (`amGetter` reads no cache cell): its model value is the Lean predicate on the grid's own shells"""
+    ops = [o for o in ops_all if o["kind"] != GETTER]
+    steps, heap = _lean_hist(ctx, t, ops) if ops else ([], [])
+    it = iter(steps)
+    want = [i for i, b in enumerate(lean_am(ctx, t)[1]) if b]
+    full = [dict(err=False, tag=0, rows=want, data=None, frame=-1) if o["kind"] == GETTER else next(it) for o in ops_all]
+    return full, heap
+
+
+def _lean_hist(ctx, t, ops):
     tok = common.Tok(ctx.driver.ask("C15.hist", " ".join(str(b) for b in REPAIRS), t.enc_g(), str(len(ops)),
                                     " ".join(enc_op(t, op) for op in ops)))
     n = tok.int()
@@ -761,6 +803,8 @@ def kind_name(op):
 
 
 def signature_fresh(t, op, o, clauses):
+    if op["kind"] == GETTER:
+        return "C15/antimeridian_face_indices/" + ("raises:" + str(o["exc"]) if o["err"] else "differs")
     s = f"C15/fresh/{kind_name(op)}/pe={PE[op['pe']]}/proj={'none' if op['proj'] == 0 else 'set'}"
     if op["kind"] in (0, 1):
         s += f"/engine={ENG[op['eng']]}"
@@ -803,7 +847,13 @@ def report(ctx, ux, t: Truth, ops, tag, fresh_memo):
              sample=dict(mesh=t.describe(), ops=[op_str(o) for o in ops],
                          observed=[{k: o.get(k) for k in ("err", "exc", "rows", "tag", "data")} for o in outs])
              if t.n <= 4 and len(ops) <= 3 else None)
-    for op, o in zip(ops, outs):
+    for si, (op, o) in enumerate(zip(ops, outs)):
+        if op["kind"] == GETTER:
+            before = [q for q in ops[:si] if q["kind"] != GETTER]
+            ctx.hit("antimeridian_face_indices read " + ("before any conversion" if not before else
+                    ("after a conversion with lon_0 != 0" if any(CENTRAL[q["proj"]] != 0 for q in before)
+                     else "after conversions with lon_0 = 0")))
+            continue
         ctx.hit(f"{KIND[op['kind']]}/{PE[op['pe']]}/{PROJ_NAME[op['proj']]}")
         if op["kind"] in (0, 1):
             ctx.hit("engine=" + ENG[op["eng"]])
@@ -897,10 +947,7 @@ def report(ctx, ux, t: Truth, ops, tag, fresh_memo):
 
 def check_am(ctx, ux, t: Truth):
     w = World(ux, t)
-    l32 = t.lon.astype(np.float32).astype(float)
-    toks = [str(t.w), str(t.n)] + [str(len(f)) + " " + " ".join(enc_float(l32[v]) for v in f) for f in t.faces]
-    ans = common.Tok(ctx.driver.ask("C15.am", " ".join(toks)))
-    shell, face = ans.ints(), ans.ints()
+    shell, face = lean_am(ctx, t)
     inp = dict(mesh=dict(faces=t.faces, lon=[enc_float(x) for x in t.lon], lat=[enc_float(x) for x in t.lat]),
                describe=t.describe(), ops=[], check="antimeridian_face_indices")
     ctx.case(("am", t.faces, [round(float(x), 6) for x in t.lon]), nontrivial=any(shell))
@@ -935,9 +982,12 @@ def strip(rng, k=None, clockwise=False):
     k = k or rng.randint(1, 6)
     lon, lat, faces = [], [], []
     for _ in range(k):
-        cls = rng.choice(["front", "far", "limb", "am", "am", "am100", "front"])
+        # "seam*": faces over the seam (central_longitude + 180) of a shifted projection — lon 0, 60, -90, -80 — whose
+        # seam-crossing set therefore differs from the set of faces with a >= 180 deg segment
+        cls = rng.choice(["front", "far", "limb", "am", "am", "am100", "front", "seam0", "seam60", "seam-90"])
         c = {"front": rng.uniform(-50, 50), "far": rng.choice([-1, 1]) * rng.uniform(105, 165), "limb": rng.choice([-90, 90]),
-             "am": rng.choice([-1, 1]) * rng.uniform(176, 179.9), "am100": rng.uniform(-84, -76)}[cls]
+             "am": rng.choice([-1, 1]) * rng.uniform(176, 179.9), "am100": rng.uniform(-84, -76),
+             "seam0": rng.uniform(-3, 3), "seam60": rng.uniform(57, 63), "seam-90": rng.uniform(-93, -87)}[cls]
         clat = rng.uniform(-55, 55)
         m = rng.randint(3, 6)
         r = rng.uniform(4, 9)
@@ -1095,10 +1145,12 @@ def mesh_stream(ctx, rng, big):
     return out
 
 
-def rand_op(rng, nvars=2, kinds=(0, 1, 2, 3, 4)):
+def rand_op(rng, nvars=2, kinds=(0, 1, 2, 3, 4, 0, 1, 2, 3, 4, GETTER)):
     kind = rng.choice(kinds)
+    if kind == GETTER:
+        return mk_op(GETTER, 0, 0)
     pe = rng.choice([0, 0, 1, 2])
-    proj = rng.choice([0, 0, 1, 2, 3])
+    proj = rng.choice([0, 0, 1, 2, 3, 4, 5, 6])
     if pe == 1 and rng.random() < 0.8:
         proj = 0
     return mk_op(kind, pe, proj, eng=rng.choice([0, 0, 1]), cache=rng.random() < 0.8, override=rng.random() < 0.2,
@@ -1122,6 +1174,15 @@ def directed_histories():
     H.append([mk_op(2, 0, 1), mk_op(2, 0, 0), mk_op(3, 0, 1), mk_op(3, 2, 0)])
     H.append([mk_op(0, 0, 1, eng=1), mk_op(0, 0, 1, eng=0), mk_op(1, 0, 1, eng=1)])
     H.append([mk_op(3, 1, 0), mk_op(3, 0, 0), mk_op(3, 1, 0, var=1)])
+    # reads of Grid.antimeridian_face_indices: before any conversion, first read AFTER a conversion whose projection has
+    # its seam elsewhere (GeoDataFrame, PolyCollection, LineCollection; cached or not), between conversions
+    G = mk_op(GETTER, 0, 0)
+    for p in (3, 4, 5, 6, 1):
+        H.append([mk_op(0, 0, p), G])
+        H.append([mk_op(3, 0, p), G, mk_op(1, 0, 0), G])
+    H.append([G, mk_op(0, 0, 4), G, mk_op(2, 2, 5, cache=False), G])
+    H.append([mk_op(4, 0, 6), G, mk_op(0, 2, 4, cache=False, override=True), G])
+    H.append([mk_op(2, 0, 4, cache=False), G])
     return H
 
 
@@ -1183,6 +1244,8 @@ def run(ctx):
         if nosplit:
             ctx.hit("split-undefined(exact 180 deg segment)")
         singles = [o for o in singles if not (PE[o["pe"]] == "split" and o["proj"] in nosplit)]
+        if not big:
+            singles = [o for o in singles if o["proj"] < 4 or rng.random() < 0.34]
         if kind == "crossing-at" and not big:
             singles = [o for o in singles if PE[o["pe"]] != "ignore" and o["proj"] in (0, 3)]
         if kind == "comb" and not big:
@@ -1200,6 +1263,8 @@ def run(ctx):
             hs.append([dict(o, proj=o["proj"] if o["proj"] in projs else 0) for o in h])
         for h in hs:
             h = [o for o in h if not (PE[o["pe"]] == "split" and o["proj"] in nosplit)]
+            if 0 not in projs:
+                h = [o for o in h if o["kind"] != GETTER]  # a segment within float32 rounding of 180 deg: not judged
             if h:
                 report(ctx, ux, t, h, "history", memo)
 
